@@ -1269,16 +1269,30 @@ impl TensorStore {
                         positions,
                         values,
                     } => {
-                        // Load directly as sparse vector
+                        // Load directly as sparse vector. The file is untrusted: positions must
+                        // fit in u32, pair up with the values, be distinct and lie inside the
+                        // dimension - anything else is a damaged file, not a panic.
                         let pos_ids = tensor_compress::decompress_ids(&positions);
-                        #[allow(clippy::cast_possible_truncation)]
-                        // Sparse vector positions fit in u32
-                        let positions_u32: Vec<u32> = pos_ids.iter().map(|&p| p as u32).collect();
-                        TensorValue::Sparse(SparseVector::from_parts(
-                            dimension,
-                            positions_u32,
-                            values,
-                        ))
+                        let bad = |what: &str| {
+                            SnapshotError::SerializationError(format!("sparse vector field: {what}"))
+                        };
+                        let positions_u32: Vec<u32> = pos_ids
+                            .iter()
+                            .map(|&p| u32::try_from(p))
+                            .collect::<std::result::Result<_, _>>()
+                            .map_err(|_| bad("position does not fit in 32 bits"))?;
+                        if positions_u32.len() != values.len() {
+                            return Err(bad("position and value counts differ"));
+                        }
+                        let mut sorted = positions_u32.clone();
+                        sorted.sort_unstable();
+                        if sorted.windows(2).any(|w| w[0] == w[1]) {
+                            return Err(bad("duplicate position"));
+                        }
+                        TensorValue::Sparse(
+                            SparseVector::try_from_parts(dimension, positions_u32, values)
+                                .map_err(|e| bad(&e.to_string()))?,
+                        )
                     },
                     CompressedValue::VectorTT { .. } | CompressedValue::IdList(_) => {
                         let v = decompress_vector(&value)
